@@ -40,11 +40,11 @@ def main():
         open(os.path.join(dest, "patch.diff"), "w").write(diff)
         r = sh(PYTEST.format(wt=wt))
         confirm["test_suite_with_change"] = r.stdout.strip()
-        d1 = sh(f"cd {wt} && timeout 600 {PY} SEED/demo.py")
+        d1 = sh(f"cd {wt} && PYTHONPATH={wt} timeout 600 {PY} SEED/demo.py")
         confirm["demo_with_change_exit"] = d1.returncode
         confirm["demo_with_change_tail"] = (d1.stdout + d1.stderr)[-600:]
         sh(f"git -C {wt} stash")
-        d0 = sh(f"cd {wt} && timeout 600 {PY} SEED/demo.py")
+        d0 = sh(f"cd {wt} && PYTHONPATH={wt} timeout 600 {PY} SEED/demo.py")
         confirm["demo_without_change_exit"] = d0.returncode
         sh(f"git -C {wt} stash pop")
         shutil.copy(os.path.join(wt, "SEED", "demo.py"), os.path.join(dest, "demo.py"))
@@ -76,7 +76,7 @@ def main():
     meta_out = dict(meta)
     meta_out.update(dict(name=name, confirmed_by_me=confirm or "see earlier run", checks_run={
         c: dict(tier=tier, exit=v["exit"], violations=v["violations"], signatures=v["signatures"]) for c, v in results.items()},
-        detected_by=[c for c, v in results.items() if v["exit"] == 1],
+        detected_by=[c for c, v in results.items() if v["exit"] == 1 and v["violations"] > 0],
         base_commit=sh("git -C /repo rev-parse --short HEAD").stdout.strip()))
     old = {}
     if os.path.exists(os.path.join(dest, "meta.json")):
